@@ -118,6 +118,32 @@ func (c05) Run(e *simkit.Env, cc any) {
 				e.Fail("C05/observer-notified-twice", "%s %s: linked observer got %d exits, monitoring observer got %d downs", c.Kind, stage, len(ol), len(om))
 				return false
 			}
+			if len(ol) != 1 || len(om) != 1 {
+				e.Fail("C05/observer-not-notified", "%s %s: the target terminated (%s); the trapping process linked to it got %d exit messages and the monitoring process %d down messages", c.Kind, stage, tr, len(ol), len(om))
+				return false
+			}
+			if t.nameObservers {
+				t.mu.Lock()
+				oln := append([]error(nil), t.obsLinkName...)
+				omn := append([]error(nil), t.obsMonName...)
+				t.mu.Unlock()
+				if len(oln) != 1 || len(omn) != 1 {
+					e.Fail("C05/observer-not-notified", "%s %s: the target terminated (%s); the trapping top-level process linked to its registered name got %d exit messages and the one monitoring the name %d down messages", c.Kind, stage, tr, len(oln), len(omn))
+					return false
+				}
+				for _, o := range append(oln, omn...) {
+					ok := false
+					for _, a := range allowed {
+						if a == reasonKey(o) {
+							ok = true
+						}
+					}
+					if !ok {
+						e.Fail("C05/wrong-reason-observer", "%s %s: an observer of the registered name was told reason %q but the causes issued allow only %v", c.Kind, stage, reasonKey(o), allowed)
+						return false
+					}
+				}
+			}
 		}
 		return true
 	}
